@@ -165,7 +165,7 @@ static void ProcessFile(char const* FileName, LongWord Offset) {
     Word     TestID;
     Byte     InpHeader, InpCPU, InpSegment, InpGran;
     LongWord InpStart, SumLen;
-    Word     InpLen, TransLen;
+    Word     InpLen, TransLen, ThisLineLen;
     Boolean  doit, FirstBank = 0;
     Boolean  CDataLower = !!strchr(CFormat, 'd'), CDataUpper = !!strchr(CFormat, 'D');
     Byte     Buffer[MaxLineLen];
@@ -303,7 +303,8 @@ static void ProcessFile(char const* FileName, LongWord Offset) {
 
                 /* Statistik, Anzahl Datenzeilen ausrechnen */
 
-                RecCnt = ErgLen / LineLen;
+                ThisLineLen = LineLen;
+                RecCnt      = ErgLen / LineLen;
                 if ((ErgLen % LineLen) != 0) {
                     RecCnt++;
                 }
@@ -339,6 +340,13 @@ static void ProcessFile(char const* FileName, LongWord Offset) {
                     }
                     if (MaxMoto < MotRecType) {
                         MaxMoto = MotRecType;
+                    }
+                    /* the count byte also covers address and checksum: no more
+                       than 252/251/250 data bytes fit into an S1/S2/S3 record */
+                    if (ThisLineLen + 3 + MotRecType > 255) {
+                        ThisLineLen = 252 - MotRecType;
+                        ThisLineLen -= ThisLineLen % Gran;
+                        RecCnt = (ErgLen + ThisLineLen - 1) / ThisLineLen;
                     }
                     if (Rec5) {
                         ChkSum = Lo(RecCnt) + Hi(RecCnt) + 3;
@@ -439,7 +447,7 @@ static void ProcessFile(char const* FileName, LongWord Offset) {
                        Bei Atmel nur 2 Byte pro Zeile!
                        Bei Mico8 nur 4 Byte (davon ein Wort=18 Bit) pro Zeile! */
 
-                    TransLen = min(LineLen, ErgLen);
+                    TransLen = min(ThisLineLen, ErgLen);
                     if ((ActFormat == eHexFormatIntel32)
                         && ((ErgStart & 0xffff) + (TransLen / Gran) >= 0x10000)) {
                         TransLen  = Gran * (0x10000 - (ErgStart & 0xffff));
